@@ -24,6 +24,8 @@ type Op struct {
 	E    *Expr  `json:"e,omitempty"`  // push / store operand
 	Cs   []int  `json:"cs,omitempty"` // select clauses
 	Body []Op   `json:"body,omitempty"`
+	TB   bool   `json:"tb,omitempty"` // block / exit: tagbody + go instead of block + return-from
+	B    int    `json:"b,omitempty"`  // block / exit: block name, tag
 }
 
 // Prog is a program of the model plus the rendering choices that the model does not see.
@@ -42,19 +44,21 @@ type Prog struct {
 func lit(z int64) *Expr     { return &Expr{Kind: "lit", Z: z} }
 func accplus(k int64) *Expr { return &Expr{Kind: "accplus", Z: k} }
 
-func Push(c int, z int64) Op    { return Op{Kind: "push", C: c, E: lit(z)} }
-func PushGot(c int) Op          { return Op{Kind: "push", C: c, E: &Expr{Kind: "got"}} }
-func PushAcc(c int) Op          { return Op{Kind: "push", C: c, E: &Expr{Kind: "acc"}} }
-func Pop(c int) Op              { return Op{Kind: "pop", C: c} }
-func Range(c int) Op            { return Op{Kind: "range", C: c} }
-func Select(cs ...int) Op       { return Op{Kind: "select", Cs: cs} }
-func Close(c int) Op            { return Op{Kind: "close", C: c} }
-func Load(x int) Op             { return Op{Kind: "load", X: x} }
-func Store(x int, e *Expr) Op   { return Op{Kind: "store", X: x, E: e} }
-func Fail() Op                  { return Op{Kind: "fail"} }
-func Lock(m int, b ...Op) Op    { return Op{Kind: "lock", M: m, Body: b} }
-func Catch(b ...Op) Op          { return Op{Kind: "catch", Body: b} }
-func Incr(m, x int, k int64) Op { return Lock(m, Load(x), Store(x, accplus(k))) }
+func Push(c int, z int64) Op              { return Op{Kind: "push", C: c, E: lit(z)} }
+func PushGot(c int) Op                    { return Op{Kind: "push", C: c, E: &Expr{Kind: "got"}} }
+func PushAcc(c int) Op                    { return Op{Kind: "push", C: c, E: &Expr{Kind: "acc"}} }
+func Pop(c int) Op                        { return Op{Kind: "pop", C: c} }
+func Range(c int) Op                      { return Op{Kind: "range", C: c} }
+func Select(cs ...int) Op                 { return Op{Kind: "select", Cs: cs} }
+func Close(c int) Op                      { return Op{Kind: "close", C: c} }
+func Load(x int) Op                       { return Op{Kind: "load", X: x} }
+func Store(x int, e *Expr) Op             { return Op{Kind: "store", X: x, E: e} }
+func Fail() Op                            { return Op{Kind: "fail"} }
+func Lock(m int, b ...Op) Op              { return Op{Kind: "lock", M: m, Body: b} }
+func Catch(b ...Op) Op                    { return Op{Kind: "catch", Body: b} }
+func Block(tb bool, b int, body ...Op) Op { return Op{Kind: "block", TB: tb, B: b, Body: body} }
+func Exit(tb bool, b int) Op              { return Op{Kind: "exit", TB: tb, B: b} }
+func Incr(m, x int, k int64) Op           { return Lock(m, Load(x), Store(x, accplus(k))) }
 
 // CountOps counts operations including nested ones.
 func CountOps(ops []Op) int {
@@ -105,6 +109,10 @@ func (o Op) Gallina() string {
 		return fmt.Sprintf("OLock %d %s", o.M, GOps(o.Body))
 	case "catch":
 		return "OCatch " + GOps(o.Body)
+	case "block":
+		return fmt.Sprintf("OBlock %v %d %s", o.TB, o.B, GOps(o.Body))
+	case "exit":
+		return fmt.Sprintf("OExit %v %d", o.TB, o.B)
 	}
 	panic("unknown op " + o.Kind)
 }
@@ -220,6 +228,22 @@ func (rd *renderer) op(b *strings.Builder, o Op) {
 		b.WriteString(" (ignore-errors")
 		rd.ops(b, o.Body)
 		b.WriteString(")")
+	case "block":
+		if o.TB {
+			b.WriteString(" (tagbody")
+			rd.ops(b, o.Body)
+			fmt.Fprintf(b, " %d)", o.B)
+		} else {
+			fmt.Fprintf(b, " (block c17b%d", o.B)
+			rd.ops(b, o.Body)
+			b.WriteString(")")
+		}
+	case "exit":
+		if o.TB {
+			fmt.Fprintf(b, " (go %d)", o.B)
+		} else {
+			fmt.Fprintf(b, " (return-from c17b%d 7)", o.B)
+		}
 	default:
 		panic("unknown op " + o.Kind)
 	}
@@ -255,4 +279,16 @@ func (p *Prog) Lisp(job int, after func(rid int) string) (setup []string, runs [
 		finals = append(finals, fmt.Sprintf("(length c%d)", c))
 	}
 	return
+}
+
+// HasExit reports whether the program contains a return-from / go.  Such a program is rendered without
+// (vyield) / (vpause) forms: slip's forms pass an exit marker on only when it is the value of their LAST form,
+// so an inserted form after it would change the meaning.
+func HasExit(ops []Op) bool {
+	for _, o := range ops {
+		if o.Kind == "exit" || HasExit(o.Body) {
+			return true
+		}
+	}
+	return false
 }
